@@ -282,9 +282,18 @@ def long_inputs(r, props, sizes, fams=("lr", "lr2", "hidden", "mutual", "arith",
     inp = r.path("%s-cases-%d.ndjson" % (tag, r._k))
     core.write_ndjson(inp, cases)
     tr = r.path("%s-trace-%d.ndjson" % (tag, r._k))
-    r.pvh("parse", "replay", **{"in": inp, "out": r.path("%s-%d.json" % (tag, r._k)), "trace": tr, "budget": 3000000, "toponly": 1, "trees": 0}, timeout=3000)
+    rep = r.path("%s-%d.json" % (tag, r._k))
+    r.pvh("parse", "replay", **{"in": inp, "out": rep, "trace": tr, "budget": 3000000, "toponly": 1, "trees": 0}, timeout=3000)
     rows = core.read_ndjson(tr)
     res = {"violations": 0}
+    for v in json.load(open(rep))["violations"]:      # what the probes themselves stop: the re-entry bound (C02)
+        if v["prop"] in props:
+            c = v["case"]
+            case = {"kind": "parsecase", "G": c["G"], "w": c["w"], "B": c["B"], "adm": c["adm"], "asks": [[a["n"], a["p"]] for a in c["asks"]],
+                    "root": c["asks"][0]["n"], "key": case_key(c), "grammar": gtext(c["G"]), "input": wtext(c["w"]), "props": props,
+                    "detail": {k: v[k] for k in v if k not in ("case", "prev")}}
+            if r.violation(case, "%s: %s on grammar [%s] input of %d bytes" % (v["prop"], v.get("what"), gtext(c["G"]), len(c["w"]))):
+                res["violations"] += 1
     judge_file(r, tr, rows, props, res)
     nb = sum(1 for x in rows if x.get("ev") == "begin")
     r.evaluations += nb
